@@ -11,3 +11,4 @@ pub mod unit;
 
 #[cfg(feature = "verif-hooks")]
 pub mod verif;
+pub mod verif_http;
